@@ -354,7 +354,7 @@ Definition build (a : build_args) : result url :=
         let p := if mem 46 path then normalize_path path else path in
         match p with
         | 47 :: _ => Ok p
-        | [] => Err IndexError            (* path[0] on an empty normalised path *)
+        | [] => Err ValueError              (* path[:1] != "/" on an emptied path *)
         | _ => Err ValueError
         end
       else Ok path);
